@@ -9,7 +9,12 @@ reg("C05", "masked or undefined samples never influence a result",
          "rows only; heterotopic cells stay undefined in both). The operation runs on both; every output is mapped through the "
          "kept-sample index map and compared BIT FOR BIT (no tolerance is used anywhere); return codes must agree; masked target "
          "rows must hold TEST in newly created variables; pre-existing columns must be untouched; when nothing is left after "
-         "removal no value may be produced. OPERATIONS COVERED: kriging and test_neigh (unique / moving / moving+ball-tree "
+         "removal no value may be produced. Direct (non-metamorphic) oracles where an error common to both runs would hide: the "
+         "shape of every covariance / drift matrix against the count of (requested variable, active sample where THAT variable is "
+         "defined), Db::getMultipleRanksActive for explicit variable lists, all Db predicates against the harness' knowledge of "
+         "the sample set. Kriging in unique neighbourhood with a datum whose location is only PARTIALLY undefined (ndim >= 2, no "
+         "MATERN) is a stratum of its own (key C05:kriging:unique:partially-undefined-location, clean on the reference tree). "
+         "OPERATIONS COVERED: kriging and test_neigh (unique / moving / moving+ball-tree "
          "neighbourhood; simple, ordinary, linear-drift, external-drift and intrinsic linear models; 1-2 variables; point and grid "
          "targets with masked targets), xvalid, Vario::compute (VARIOGRAM COVARIANCE COVARIOGRAM MADOGRAM RODOGRAM POISSON "
          "COVARIANCE_NC ORDER4 TRANS1 TRANS2 BINORMAL; omni / multi-direction; by-sample option; weights) incl. its stored "
